@@ -1,6 +1,14 @@
 //! Configuration and builders for [`crate::Watchexec`].
 
-use std::{future::Future, pin::pin, sync::Arc, time::Duration};
+use std::{
+	future::Future,
+	pin::pin,
+	sync::{
+		atomic::{AtomicU64, Ordering},
+		Arc,
+	},
+	time::Duration,
+};
 
 use tokio::sync::Notify;
 use tracing::{debug, trace};
@@ -33,6 +41,9 @@ pub struct Config {
 	/// This is set by the change methods whenever they're called, and notifies Watchexec that it
 	/// should read the configuration again.
 	pub(crate) change_signal: Arc<Notify>,
+
+	/// Number of change signals so far, so that a watcher can tell it missed one while it was busy.
+	pub(crate) change_count: Arc<AtomicU64>,
 
 	/// The main handler to define: what to do when an action is triggered.
 	///
@@ -159,6 +170,7 @@ impl Default for Config {
 	fn default() -> Self {
 		Self {
 			change_signal: Default::default(),
+			change_count: Default::default(),
 			action_handler: ChangeableFn::new(ActionReturn::Sync),
 			error_handler: Default::default(),
 			pathset: Default::default(),
@@ -182,6 +194,7 @@ impl Config {
 		reason = "this return can explicitly be ignored"
 	)]
 	pub fn signal_change(&self) -> &Self {
+		self.change_count.fetch_add(1, Ordering::SeqCst);
 		self.change_signal.notify_waiters();
 		self
 	}
@@ -192,7 +205,7 @@ impl Config {
 	/// subsequent one is from a change signal for this Config.
 	#[must_use]
 	pub(crate) fn watch(&self) -> ConfigWatched {
-		ConfigWatched::new(self.change_signal.clone())
+		ConfigWatched::new(self.change_signal.clone(), self.change_count.clone())
 	}
 
 	/// Set the pathset to be watched.
@@ -273,16 +286,20 @@ impl Config {
 pub(crate) struct ConfigWatched {
 	first_run: bool,
 	notify: Arc<Notify>,
+	count: Arc<AtomicU64>,
+	seen: u64,
 }
 
 impl ConfigWatched {
-	fn new(notify: Arc<Notify>) -> Self {
+	fn new(notify: Arc<Notify>, count: Arc<AtomicU64>) -> Self {
 		let notified = notify.notified();
 		pin!(notified).as_mut().enable();
 
 		Self {
 			first_run: true,
 			notify,
+			count,
+			seen: 0,
 		}
 	}
 
@@ -294,11 +311,15 @@ impl ConfigWatched {
 		if self.first_run {
 			trace!("ConfigWatched: first run");
 			self.first_run = false;
+		} else if self.count.load(Ordering::SeqCst) != self.seen {
+			// a change was signalled after the previous Notified resolved and before this one was
+			// issued (i.e. while the caller was busy applying the previous config): don't wait
+			trace!("ConfigWatched: change signalled since last time");
 		} else {
 			trace!(?notified, "ConfigWatched: waiting for change");
-			// there's a bit of a gotcha where any config changes made after a Notified resolves
-			// but before a new one is issued will not be caught. not sure how to fix that yet.
 			notified.await;
 		}
+
+		self.seen = self.count.load(Ordering::SeqCst);
 	}
 }
